@@ -13,6 +13,18 @@ def run(tier, seed):
     cases = sim_common.make_cases("C08", tier, seed, n, variants=(0, 0, 1, 2, 0, 3, 0, 1), fp_levels=(2, 10, 3, 1, 10, 2, 3), sizes=(0,),
                                   gvts=[0, 20, 1000, 0, 200, 50, 1000, 5000], threads=[2, 3, 4, 2, 8, 2, 12, 5, 3, 4, 2, 6])
     recs = sim_common.run_sim_cases(chk, cases, timeout=200, retries=0)
+    # the suite's and the users' configuration: MPI transport with a single rank (control messages travel through MPI to self, so a
+    # MSG_CTRL_GVT_START / _DONE can be in flight while threads change stage); mildly oversubscribed on purpose
+    sexe = mpi_common.mpi_exe("asan")
+    scases = sim_common.make_cases("C08", tier, seed + 17, 70 if tier == "quick" else 1200, variants=(0, 0, 1, 2, 0, 3), fp_levels=(2, 10, 3, 1, 10), sizes=(0,),
+                                   gvts=[1, 200, 0, 20, 1000], threads=[4, 2, 3, 4, 8, 4])
+    for c in scases:
+        c["exe"] = sexe
+    srecs = []
+    for c, res in zip(scases, sim_common.run_batches(scases, timeout=100, max_threads=28)):
+        rec, anomaly = sim_common.absorb_sim(chk, c, res)
+        srecs.append(anomaly)
+    chk.stats["mpi_singleton_runs_returned"] = sum(1 for a in srecs if not a)
     # multi-rank shutdown: ranks leave the main loop at different moments, control messages may still be in flight
     chk.soft_fraction = 0.3
     mcases = mpi_common.make_cases("C08", tier, seed, 36 if tier == "quick" else 300, variants=(0, 1, 2, 0, 3), fault_rates=(0, 40, 0),
@@ -24,4 +36,4 @@ def run(tier, seed):
                 "period 0/20/50/200/1000/5000 us, 2..12 threads, failpoints at loop exit, after the GVT block, between GVT phases, in barrier spins; "
                 "non-trivial = rollbacks + anti-messages occurred; distinct = schedule signature")
     chk.assumptions = ["liveness is decided as bounded progress: every explored run returned within the step budget and without a 12 s state freeze; an unbounded 'eventually' is out of reach of runtime monitoring"]
-    return chk.finish(min_evals=50, require={"runs_variant_0": 20, "runs_variant_1": 10, "runs_variant_2": 10, "runs_variant_3": 5, "termination_votes": 50, "gvt_values_consumed": 500, "mpi_runs_returned": 6})
+    return chk.finish(min_evals=50, require={"runs_variant_0": 20, "runs_variant_1": 10, "runs_variant_2": 10, "runs_variant_3": 5, "termination_votes": 50, "gvt_values_consumed": 500, "mpi_runs_returned": 6, "mpi_singleton_runs_returned": 30})
